@@ -258,7 +258,7 @@ def eq_case(cluster, rng, ow, bases):
     return {"type": "eq", "w": ow, "items": items, "eq": eq, "ne": ne, "hid": [rank[h] for h in hs]}
 
 
-def eq_witness(case):
+def eq_witness(case, kind=None):
     """A pair of table entries on which == disagrees with the geometry (for the message only; TLC gave the verdict)."""
     nsp = {"plain": 0, "vac": 1, "ts": 2, "vts": 2}
 
@@ -273,7 +273,9 @@ def eq_witness(case):
     items = case["items"]
     fs = [form(it) for it in items]
     for a in range(len(items)):
-        for b in range(a + 1, len(items)):
+        for b in range(len(items)):
+            if a == b or (kind and items[a]["kind"] != kind):
+                continue
             same = fs[a] == fs[b]
             if same != bool(case["eq"][a][b]) or (case["eq"][a][b] and case["hid"][a] != case["hid"][b]):
                 return "e.g. %s %s vs %s %s: == is %s, hashes %s, same geometry is %s" % (
@@ -370,7 +372,7 @@ def run(ctx):
             cases.append(case)
             meta.append(("enum", key, w, {"cutoff": cutoff, "jcutoff": jcutoff, "K": K, "excl": excl, "chem": chem}))
             # equality / hash table on clusters of this world
-            if trial == 0 and (not quick or len(meta) % 2 == 0):
+            if trial == 0 and (not quick or wl.index(w) % 3 == 0):
                 bases = []
                 flat = [c for s in case["clusters"] for c in s]
                 for kind, src in (("plain", flat), ("vac", [c for s in case["vac"] for c in s]),
@@ -433,10 +435,10 @@ def run(ctx):
         else:
             n = inf.get("items", 0)
             ctx.case(str((cases[i]["w"], cases[i]["items"])), nontrivial=1 < inf.get("classes", 0) < n)
-            if fl:
-                ctx.violation("eq|%s|%s" % ("+".join(fl), key[3:]),
-                              "world %s: clause(s) %s of Check_C31 fail on a table of %d clusters (%d geometric classes): "
-                              "%s" % (w["name"], fl, n, inf.get("classes", 0), eq_witness(cases[i])),
+            for f in fl:        # Cluster ==/hash do not depend on the crystal: one key per law and kind
+                ctx.violation("eq|%s" % f,
+                              "clause %s of Check_C31 fails on a table of %d clusters (%d geometric classes) built for world "
+                              "%s: %s" % (f, n, inf.get("classes", 0), w["name"], eq_witness(cases[i], f.partition("@")[2])),
                               {"world": w, "case": cases[i]})
         ctx.traces += 1
     ctx.info("cases_with_unclosed_jump_network", unclosed)
